@@ -267,6 +267,54 @@ def explore_words(case):
     return res
 
 
+def explore_pyapi(case):
+    """the group method used directly from Python with numeric elements that are built once and reused over several steps
+    (l, r, B constructed once; X fed back): the way a Python user integrates an IMU stream without code generation"""
+    from .. import numapi
+    seed = case["seed"]
+    res = core.Result()
+    for config, G in (("strapdown_quat", lib.lie.SE23Quat), ("exp_mixed_mrp", lib.lie.SE23Mrp)):
+        for x0 in initial_states(config, seed):
+            for a, w, g, dt in ((A_MENU[2], W_MENU[2], 9.8, 0.1), (A_MENU[1], W_MENU[3], 9.8, 0.01), (A_MENU[2], W_MENU[1], 0.0, 0.5)):
+                res.count("evaluations")
+                res.count("states", 4)
+                res.count("transitions", 3)
+                res.nontrivial.add(hash((config, x0.tobytes(), a.tobytes(), w.tobytes(), g, dt)))
+                lp = np.concatenate([np.zeros(3), a, w])
+                rp = np.array([0, 0, 0, 0, 0, -g, 0, 0, 0.0])
+                l = lib.lie.se23.elem(ca.DM(lp))
+                r = lib.lie.se23.elem(ca.DM(rp))
+                Bm = ca.sparsify(ca.SX([[0, 1], [0, 0]]))
+                X = G.elem(ca.DM(x0))
+                p, v, R = split(config, x0)
+                try:
+                    for k in range(3):
+                        X = G.exp_mixed(X, l * dt, r * dt, Bm * dt)
+                        p, v, R = ref_step(p, v, R, a, w, g, dt)
+                        x1 = numapi.ev(X.param).reshape(-1)
+                        res.count("traces_validated_against_impl")
+                        if not judge(res, config, x1, p, v, R, 1.0 + (k + 1) * dt, "python_api_reused_elements", dict(x0=x0, a=a, w=w, g=g, dt=dt, step=k + 1, cls="step%d" % (k + 1)), case, steps=k + 1):
+                            break
+                except Exception as ex:
+                    res.fail(site=config, clause="python_api_reused_elements:no_exception", cls=type(ex).__name__, detail=dict(error=str(ex)[:200]), sub="pyapi", case=case)
+                    continue
+                if not (np.array_equal(numapi.ev(l.param).reshape(-1), lp) and np.array_equal(numapi.ev(r.param).reshape(-1), rp)):
+                    res.fail(site=config, clause="python_api_reused_elements:arguments_not_mutated", cls="-",
+                             detail=dict(l_before=lp, l_after=numapi.ev(l.param).reshape(-1), r_after=numapi.ev(r.param).reshape(-1)), sub="pyapi", case=case)
+    res.samples.append(dict(pyapi=True))
+    return res
+
+
+class _SubPy:
+    chunks = 1
+
+    def cases(self, tier, seed):
+        return [dict(sub="pyapi", tier=tier, seed=seed)]
+
+    def run(self, case):
+        return explore_pyapi(case)
+
+
 class _SubOne:
     chunks = 1
 
@@ -298,9 +346,9 @@ class _SubWords:
         return explore_words(case)
 
 
-SUBCHECKS = {"onestep": _SubOne(), "words": _SubWords()}
+SUBCHECKS = {"onestep": _SubOne(), "pyapi": _SubPy(), "words": _SubWords()}
 SUBCHECKS["words"].chunks = 4
-REPLAY = {"onestep": lambda c: explore_onestep(c).fails, "words": lambda c: explore_words(c).fails}
+REPLAY = {"onestep": lambda c: explore_onestep(c).fails, "words": lambda c: explore_words(c).fails, "pyapi": lambda c: explore_pyapi(c).fails}
 
 
 def bounds(tier):
